@@ -392,6 +392,30 @@ def straight_witness(U, mode, vcmp, planned, present, H):
     return ops
 
 
+CYCLE_FINDING = "C16-witness-through-cycle-assumption"
+
+
+def unmet_clauses(F, touched):
+    """clauses of the packages a plan touched that no package of its final set F satisfies (for an installed package the classes the
+    resolver processes for built packages).  A plan the resolver returns can only contain one through its slot-cycle assumption
+    (check_for_cycles answers 'satisfied' for a dependency that leads back to a key+slot being worked on — C15's open finding
+    C15-dependency-cycle-assumed-satisfied)."""
+    out = []
+    for p in touched:
+        classes = [c for c in c15.CLASSES if not p.repo.livefs or c in ("rdepend", "idepend", "pdepend")]
+        for cls in classes:
+            for cl in getattr(p, cls).cnf_solutions():
+                ok = False
+                for x in cl:
+                    if x.blocks:
+                        ok = ok or not any(x.match(q) for q in F if c15.pid(q) != c15.pid(p))
+                    else:
+                        ok = ok or any(x.match(q) for q in F)
+                if not ok:
+                    out.append(f"{p!r} {cls} ( {' '.join(map(str, cl))} )")
+    return out
+
+
 def oracle(case3, mode, earlier, before, a, H, limit=900, vcmp=None):
     """is `H` resolvable on top of what the earlier targets of the episode were given?
 
@@ -436,7 +460,9 @@ def oracle(case3, mode, earlier, before, a, H, limit=900, vcmp=None):
             pinned_ok = False
         if pinned_ok:
             req, objp = check_c15(None, r, order, pins + [pin])
-            return {"req": req, "objp": objp, "pins": pins + [pin], "same": same, "extra": extra, "kind": "pinned"}
+            snap = snapshot(r, U, index)
+            return {"req": req, "objp": objp, "pins": pins + [pin], "same": same, "extra": extra, "kind": "pinned",
+                    "unmet": unmet_clauses(snap["F"], snap["touched"])}
         # the resolver under test could not pin H: is there an independent, dependency-ordered first-candidate plan for it?
         ops = straight_witness(U, mode, vcmp, ctxt["touched"], ctxt["F"], H) if vcmp else None
         if not ops:
@@ -672,10 +698,16 @@ def run(ctx):
             on_top += (f"; the live plan held {[repr(q) for q in extra]} before this target, which a fresh resolution of the earlier targets' "
                        f"choices does not plan")
         plan_txt = [repr(q) for q in st["after"]["touched"]]
+        # the witness itself stands on the resolver's slot-cycle assumption (recorded open finding): a live resolver that already knows an
+        # atom of that clause's candidates as insoluble prunes the candidate before the cycle test and chooses differently
+        fnd = CYCLE_FINDING if w.get("unmet") else None
+        if fnd:
+            on_top += f"; the witness plan holds dependency clauses nothing in it satisfies: {w['unmet']}"
+            ctx.count("witness_through_cycle_assumption")
         if mode == "upgrade":
             if not any(vcmp(q, H) == 0 for q in present):
                 ctx.violation(case, f"upgrade, {where}: highest matching version {H!r} is {on_top} but the target got "
-                                    f"{[repr(q) for q in present]}; planned packages {plan_txt}")
+                                    f"{[repr(q) for q in present]}; planned packages {plan_txt}", finding=fnd)
             elif H.repo.livefs and not any(vcmp(q, H) == 0 and q.repo.livefs for q in present):
                 ctx.violation(case, f"upgrade, {where}: the installed instance {H!r} of the highest version was not preferred: {[repr(q) for q in present]}")
         else:
@@ -688,7 +720,8 @@ def run(ctx):
                     ctx.violation(case, f"min-install, {where}: already satisfied by installed {H!r} ({on_top}) but the plan merges "
                                         f"{[repr(q) for q in m]} / keeps {[repr(q) for q in present]}; planned packages {plan_txt}")
             elif not any(vcmp(q, H) == 0 for q in present):
-                ctx.violation(case, f"min-install, {where}: no installed match; highest {H!r} is {on_top} but the target got {[repr(q) for q in present]}")
+                ctx.violation(case, f"min-install, {where}: no installed match; highest {H!r} is {on_top} but the target got {[repr(q) for q in present]}",
+                              finding=fnd)
 
     for case, detail in inst_bad:
         ctx.violation(case, detail)
@@ -697,8 +730,15 @@ def run(ctx):
     # fresh resolver must give what they gave on the resolver that had failed and been reset() before
     det = []
     for case3, mode, targets, steps, hist in det_jobs:
-        res, _, _ = resolve3(case3, mode, targets)       # the same sequence once more, fresh resolver
+        res, r2, order2 = resolve3(case3, mode, targets)       # the same sequence once more, fresh resolver
         ctx.evaluations += 1
+        fnd = None
+        if hist and res["status"] == "ok" and r2 is not None:
+            U2 = [p for repo in order2 for p in repo]
+            snap = snapshot(r2, U2, {c15.pid(p): i for i, p in enumerate(U2)})
+            um = unmet_clauses(snap["F"], snap["touched"])
+            if um:
+                fnd = CYCLE_FINDING
         det.append((case3, mode, targets, res))
         last = steps[-1]
         case = dict({"case": case3, "mode": mode, "targets": targets}, **hist)
@@ -707,9 +747,9 @@ def run(ctx):
             first = sorted(tuple(pid(q)) for q in last["after"]["F"] if any(c15.pid(q) == c15.pid(x) for x in last["after"]["touched"]))
             second = sorted({tuple(o[-1]) for o in res["ops"]} - {tuple(o[1]) for o in res["ops"] if o[0] == "replace"})
             if first != second:
-                ctx.violation(case, f"{what}: {first} vs {second}")
+                ctx.violation(case, f"{what}: {first} vs {second}" + (f"; the fresh plan holds clauses nothing in it satisfies: {um}" if fnd else ""), finding=fnd)
         elif last["status"] != res["status"]:
-            ctx.violation(case, f"{what}: {last['status']} vs {res['status']}")
+            ctx.violation(case, f"{what}: {last['status']} vs {res['status']}" + (f"; the fresh plan holds clauses nothing in it satisfies: {um}" if fnd else ""), finding=fnd)
     det_jobs = det
     det_jobs = det_jobs[: ctx.n(180, 100000)]
     jobs = [[c3, m, tg] for c3, m, tg, _ in det_jobs]
